@@ -1,7 +1,7 @@
 (* Property C12 -- segment iteration agrees with the '/'-split of the text.  Statements only. *)
 From Coq Require Import List NArith Bool Arith.
 Import ListNotations.
-Require Import V.Regex V.Parse V.ParseProofs V.PathSpec V.Splice V.Setters V.Iter V.IterProofs V.IterAll V.PathQ V.C12Proofs V.NormProofs V.PopProofs V.ParentProofs V.Rfc V.DirProofs.
+Require Import V.Regex V.Parse V.ParseProofs V.PathSpec V.Splice V.Setters V.Iter V.IterProofs V.IterAll V.PathQ V.C12Proofs V.NormProofs V.PopProofs V.ParentProofs V.Rfc V.DirProofs V.C12Counts.
 Local Open Scope nat_scope.
 
 (* A non-empty path is pfx ++ join l with pfx = "" or "/" and l its non-empty list of '/'-free
@@ -73,6 +73,18 @@ Print Assumptions C12_directory.
 Theorem C12_join_split : forall p : str, join (split p) = p.
 Proof. exact join_split. Qed.
 Print Assumptions C12_join_split.
+
+(* the counting queries: is_empty() is true exactly when there is no segment (for EVERY byte string); segment_count()
+   = segments().count() is the number of pieces; normalized_segments().len() is the length of the RFC 5.2.4 walk *)
+Theorem C12_is_empty : forall p, path_is_empty p = nil_segs (segs p).
+Proof. exact is_empty_spec. Qed.
+Print Assumptions C12_is_empty.
+Theorem C12_segment_count : forall p, none_of [QM; HASH] p -> length (pq_segments p) = length (segs p).
+Proof. exact segment_count_spec. Qed.
+Print Assumptions C12_segment_count.
+Theorem C12_normalized_len : forall p, none_of [QM; HASH] p -> length (pq_normalized_segments p) = length (norm (is_abs p) (segs p)).
+Proof. exact normalized_len_spec. Qed.
+Print Assumptions C12_normalized_len.
 
 (* non-vacuity: "/a//b/" -- five calls f b f b f *)
 Example C12_example :
